@@ -105,10 +105,10 @@ func zzClient(n *zzNode) *http_client.Client {
 const (
 	zzKOther          = iota // an unrelated transaction type
 	zzKDeposit               // send to the multisig with a well-formed command
-	zzKDepositBadJSON        // send to the multisig, payload is not JSON
-	zzKDepositBadCmd         // send to the multisig, JSON command that ValidateAndComplete rejects
 	zzKBatch                 // multisend from the multisig
 	zzKValset                // edit-multisig from the multisig, numeric payload
+	zzKDepositBadJSON        // send to the multisig, payload is not JSON
+	zzKDepositBadCmd         // send to the multisig, JSON command that ValidateAndComplete rejects
 	zzKValsetBadNonce        // edit-multisig from the multisig, non-numeric payload
 	zzKSendElsewhere         // send to another address
 	zzKForeignBatch          // multisend from another address
@@ -304,7 +304,7 @@ func ZZ_C20_CatchUp() {
 		if vrt.Choose("shape", 2) == 0 {
 			nBlocks, maxTx, nKinds = 2, 2, zzNKinds // every transaction kind
 		} else {
-			nBlocks, maxTx, nKinds = 3, 2, 5 // longer history, the kinds up to zzKBatch and the unrelated one
+			nBlocks, maxTx, nKinds = 3, 2, 3 // longer history: unrelated transaction, valid deposit, batch
 		}
 	}
 	s := ZZBuildScript(nBlocks, maxTx, nKinds)
